@@ -37,6 +37,7 @@ type Options struct {
 	NoRetainAEAD     bool
 	PayloadGen       func(t *rapid.T) []byte // overrides the payload generator
 	Fixed            *Fixed                  // when set, nothing is drawn by New
+	Backing          kit.StoreBacking        // a real metastore (over a fake database) holds the rows; see kit.Store.Backing
 }
 
 // Fixed pins everything New would otherwise draw (used for re-executable scenarios).
@@ -280,6 +281,7 @@ func New(t *rapid.T, opt Options) *World {
 	}
 	w.Store = kit.NewStore(w.Log)
 	w.Store.Suffix = opt.Suffix
+	w.Store.Backing = opt.Backing
 	w.KMS = kit.NewSpyKMS(w.Log)
 	w.AEAD = kit.NewSpyAEAD()
 	w.AEAD.NoRetain = opt.NoRetainAEAD
@@ -757,13 +759,9 @@ func (w *World) ExternalRotate(part string, newSK bool) bool {
 
 // Snapshot copies the key table for the reference decryptor.
 func (w *World) Snapshot() kit.RefSnapshot {
-	snap := kit.RefSnapshot{}
-	for _, r := range w.Store.Rows() {
-		e := kit.RefEKR{Created: r.Rec.Created, Key: append([]byte(nil), r.Rec.EncryptedKey...), Revoked: r.Rec.Revoked}
-		if r.Rec.ParentKeyMeta != nil {
-			e.Parent = &kit.RefKeyMeta{KeyID: r.Rec.ParentKeyMeta.ID, Created: r.Rec.ParentKeyMeta.Created}
-		}
-		snap[kit.RefRowKey{ID: r.ID, Created: r.Created}] = e
+	snap, err := w.Store.RefSnapshot()
+	if err != nil {
+		w.T.Fatalf("the rows in the database are not in the documented shape: %v", err)
 	}
 	return snap
 }
